@@ -132,6 +132,12 @@ class SimSocket:
         self._usable("sendall")
         if self.timeout != net.expect_io_timeout and net.expect_io_timeout != "any":
             net.violations.append("sendall under timeout %r, expected the I/O timeout %r" % (self.timeout, net.expect_io_timeout))
+        if net.env_plan:
+            try:
+                net._env_fault("sendall", self)
+            except BaseException:
+                self.failed_call = True
+                raise
         k = net._socket_fault(self, "sendall")
         if k != F_NONE:
             self.failed_call = True
@@ -187,6 +193,12 @@ class SimSocket:
             net.eintr_fired = True
             raise InterruptedError(errno.EINTR, "injected EINTR")
         net.nrecv += 1
+        if net.env_plan:
+            try:
+                net._env_fault("recv", self)
+            except BaseException:
+                self.failed_call = True
+                raise
         k = net._socket_fault(self, "recv")
         if k != F_NONE:
             self.failed_call = True
